@@ -2,7 +2,7 @@
 // =================================================================================================
 // C45  GLV pricing helpers (crates/model/src/glv.rs): get_glv_value_for_market,
 //      get_market_token_amount_for_glv_value, and the round-trip lemma.
-//      NOT covered here: Glv::insert_market / validate_market_token_balance (store side) and the choice of
+//      Store side (Glv::insert_market / validate_market_token_balance): verus/C45_store.rs. NOT covered: the choice of
 //      the maximize flags in the GLV deposit / withdrawal operations.
 // =================================================================================================
 verus! {
